@@ -165,7 +165,7 @@ def sync_loop(mx, jit, nconn, seed, nlisteners=1):
 # ---------------------------------------------------------------------------------------------
 # real processes
 
-def real_run(wk, mx, jit, mode, nreq, seed):
+def real_run(wk, mx, jit, mode, nreq, seed, bind="tcp"):
     rng = _random.Random(seed)
     args = ["--max-requests", str(mx), "--max-requests-jitter", str(jit), "--graceful-timeout", "5", "--keep-alive", "2"]
     if mode == "parked":
@@ -178,8 +178,9 @@ def real_run(wk, mx, jit, mode, nreq, seed):
     if mode == "drain":
         args += ["--timeout", "2"]
         args[args.index("--graceful-timeout") + 1] = "12"
-    nworkers = 1 if mode in ("burst", "parked", "drain", "twolisten", "ka0") else 2
-    s = rp.Server(wk, workers=nworkers, threads=(1 if mode == "burst" else 2) if wk == "gthread" else None, args=args, name="c18")
+    nworkers = 1 if mode in ("burst", "parked", "drain", "twolisten", "ka0", "bodiless") else 2
+    s = rp.Server(wk, workers=nworkers, threads=(1 if mode == "burst" else 2) if wk == "gthread" else None, args=args, name="c18",
+                  bind=bind)
     pids = {}
     ev = []
     lock = threading.Lock()
@@ -264,6 +265,30 @@ def real_run(wk, mx, jit, mode, nreq, seed):
             for i in range(nreq):
                 one("/pid")
                 time.sleep(1.2)
+        elif mode == "bodiless":
+            # one keep-alive client whose requests are answered without a body (304 Not Modified): the response that
+            # reaches the limit must still close the connection; the client then carries on like a new client
+            a = None
+            for i in range(nreq):
+                try:
+                    if a is None:
+                        a = s.connect(timeout=8)
+                    st, body, info = s.get("/gen?status=304&who=1", sock=a, keepalive=True, timeout=4)
+                    pid = int(info.get("headers", {}).get("x-worker", 0) or 0)
+                    ok = st == 304 and pid and info["complete"]
+                    if ok:
+                        ev.append({"e": "resp", "ok": True, "pid": pid_id(pid)})
+                    closing = (not ok) or info.get("headers", {}).get("connection", "").lower() == "close"
+                except OSError:
+                    ok, closing = False, True
+                if closing:
+                    a.close()
+                    a = None
+                    time.sleep(1.6)         # (the async workers' accept loop notices the limit within its 1 s tick)
+                    if not ok:
+                        one("/pid")
+            if a is not None:
+                a.close()
         elif mode == "twolisten":
             # two listeners: a long request on the first one takes the worker to its limit; a client of the second
             # listener that arrives two seconds later belongs to the replacement
@@ -292,7 +317,7 @@ def real_run(wk, mx, jit, mode, nreq, seed):
         ev.append({"e": "end", "alive": sorted(alive), "initial": sorted(pid_id(p) for p in initial)})
         tr = {"max": mx, "jit": jit, "allow": allow, "workers": nworkers, "npids": max(len(pids), 1),
               "initial": sorted(pid_id(p) for p in initial), "ev": ev}
-        return tr, {"where": "real-" + mode if mode in ("burst", "parked", "drain", "twolisten", "ka0") else "real", "wk": wk, "mode": mode, "nreq": nreq,
+        return tr, {"where": ("real-" + mode if mode in ("burst", "parked", "drain", "twolisten", "ka0", "bodiless") else "real") + ("-unix" if bind == "unix" else ""), "wk": wk, "mode": mode, "nreq": nreq,
                     "fails": [e.get("why") for e in ev if e.get("e") == "resp" and not e["ok"]][:3]}
     finally:
         s.cleanup()
@@ -326,22 +351,26 @@ def c18(ctx):
     plan = [("sync", 3, 0, "seq", 14), ("gthread", 3, 0, "seq", 14), ("gevent", 3, 0, "seq", 14), ("sync", 0, 0, "seq", 10),
             ("gthread", 3, 0, "burst", 4),     # the start-up probe is the worker's first request
             ("gevent", 4, 0, "parked", 4), ("gevent", 3, 0, "drain", 0),
-            ("eventlet", 2, 0, "twolisten", 0), ("gthread", 3, 0, "ka0", 6)]
+            ("eventlet", 2, 0, "twolisten", 0), ("gthread", 3, 0, "ka0", 6),
+            # a unix-socket bind: the path must stay connectable through the recycling
+            ("gthread", 3, 0, "ka0", 6, "unix"), ("eventlet", 3, 0, "ka0", 6, "unix"),
+            ("gevent", 3, 0, "bodiless", 8)]
     if not ctx.quick:
         plan += [("gevent", 2, 0, "twolisten", 0), ("gthread", 2, 0, "twolisten", 0), ("sync", 2, 0, "twolisten", 0),
-                 ("sync", 3, 0, "ka0", 6), ("gevent", 3, 0, "ka0", 6), ("eventlet", 4, 0, "parked", 4), ("gthread", 4, 0, "parked", 4), ("eventlet", 3, 0, "drain", 0), ("gthread", 3, 0, "drain", 0),
+                 ("sync", 3, 0, "ka0", 6), ("gevent", 3, 0, "ka0", 6), ("sync", 3, 0, "ka0", 6, "unix"), ("gevent", 3, 0, "ka0", 6, "unix"),
+                 ("eventlet", 3, 0, "bodiless", 8), ("gthread", 3, 0, "bodiless", 8), ("gevent", 5, 1, "bodiless", 12), ("eventlet", 4, 0, "parked", 4), ("gthread", 4, 0, "parked", 4), ("eventlet", 3, 0, "drain", 0), ("gthread", 3, 0, "drain", 0),
                  ("sync", 3, 0, "burst", 4), ("gevent", 3, 0, "burst", 4), ("eventlet", 3, 0, "burst", 4), ("gthread", 2, 0, "burst", 3)]
         plan += [(wk, mx, jit, mode, 24) for wk in ("sync", "gthread", "gevent", "eventlet")
                  for (mx, jit) in ((1, 0), (2, 1), (4, 2), (0, 0)) for mode in ("seq", "conc")]
     results = [None] * len(plan)
 
     def runner(i):
-        wk, mx, jit, mode, n = plan[i]
+        wk, mx, jit, mode, n = plan[i][:5]
         try:
-            results[i] = real_run(wk, mx, jit, mode, n, ctx.seed * 100 + i)
+            results[i] = real_run(wk, mx, jit, mode, n, ctx.seed * 100 + i, bind=plan[i][5] if len(plan[i]) > 5 else "tcp")
         except Exception as e:   # noqa  (machinery)
             results[i] = e
-    par = 9
+    par = 12
     for base in range(0, len(plan), par):
         ths = [threading.Thread(target=runner, args=(i,)) for i in range(base, min(base + par, len(plan)))]
         [t.start() for t in ths]
